@@ -167,6 +167,9 @@ func c08Result(cx *explore.Ctx, q run.Query, r run.Result) {
 		if clause == "reference:attribute-being-edited" {
 			v.Site = site
 		}
+		if strings.HasPrefix(clause, "literal:") && cx.Case.Entry.Cons != nil {
+			v.Site = site + "/" + cx.Case.Entry.Cons.Name
+		}
 		v.Detail = fmt.Sprintf("%s [schema %s]: %s\nfile:\n%s", q, cx.Case.Entry.ID, detail, cx.Case.Text)
 		cx.C.Add(v)
 	}
@@ -292,6 +295,7 @@ func c08Result(cx *explore.Ctx, q run.Query, r run.Result) {
 	// exactness of keyword / bool sets at top-level positions
 	if top {
 		c08Exact(cx, q, cons, cands, attr, add)
+		c08LiteralRoundTrip(cx, q, cons, cands, attr, add)
 	}
 	// round trip
 	if q.Kind == run.Completion {
@@ -488,4 +492,77 @@ func C08(tier string) int {
 			Rule:         "E1 sweep of completion inside attribute values (one-constraint bodies for every constraint kind and nesting, value texts covering operators, templates, conditionals, for, index, call arguments, parentheses, collections; structure templates with count/each/self, dependent bodies, wide bodies; every cursor). Per candidate (one-directional): a reference candidate is the address of a collected declaration, starts with the typed text, is visible (block-local names only inside their visible-from range, self.* only where enabled), is not the attribute being edited, and at top-level value positions satisfies the constraint's scope/type or contains a nested declaration that does; a function candidate is a known function with the typed prefix whose return type converts; at top-level positions keyword and boolean candidates are EXACTLY those the constraint admits with the typed prefix. Round trip: accepting a reference candidate whose own declaration fits, re-parsing and re-collecting, go-to-definition at the inserted text returns that declaration. non-trivial = non-empty candidate list inside a value",
 			Assumptions:  []string{"expected scope/type is only known at top-level value positions (the constraint's own); nested positions get the declaration/prefix/visibility checks only"},
 			BiteCounters: []string{"reference_candidates", "function_candidates", "fit_checks", "round_trips"}}, nil)
+}
+
+
+// c08LiteralRoundTrip: a literal candidate offered for a LiteralValue constraint, once accepted, IS that value:
+// the edited file parses and the attribute evaluates to the constraint's value.
+func c08LiteralRoundTrip(cx *explore.Ctx, q run.Query, cons schema.Constraint, cands lang.Candidates, attr *hclsyntax.Attribute, add func(clause, site, detail string)) {
+	lv, ok := cons.(schema.LiteralValue)
+	if !ok || lv.Value.IsNull() || !lv.Value.IsWhollyKnown() || q.Kind != run.Completion {
+		return
+	}
+	_, od := hclsyntax.ParseConfig(cx.Src, cx.Case.File, hcl.InitialPos)
+	origClean := !od.HasErrors()
+	// candidates of a completion hook are the hook's business
+	if as := attrSchemaOf(cx, attr); as != nil && len(as.CompletionHooks) > 0 {
+		return
+	}
+	for _, cd := range cands.List {
+		switch cd.Kind {
+		// (object and map candidates insert the braces only - the items are completed one by one afterwards)
+		case lang.StringCandidateKind, lang.NumberCandidateKind, lang.BoolCandidateKind, lang.ListCandidateKind, lang.SetCandidateKind, lang.TupleCandidateKind:
+		default:
+			continue
+		}
+		er := cd.TextEdit.Range
+		if er.Start.Byte < 0 || er.End.Byte > len(cx.Src) || er.Start.Byte > er.End.Byte {
+			continue
+		}
+		text := string(cx.Src[:er.Start.Byte]) + cd.TextEdit.NewText + string(cx.Src[er.End.Byte:])
+		f, d := hclsyntax.ParseConfig([]byte(text), cx.Case.File, hcl.InitialPos)
+		cx.L.Count("literal_round_trips", 1)
+		if d.HasErrors() && !origClean {
+			continue // the file was broken before: the remaining errors cannot be pinned on the candidate
+		}
+		if d.HasErrors() {
+			add("literal:accepted-text-does-not-parse", "literal", fmt.Sprintf("accepting %q (plain text %q) leaves a file that does not parse: %s", cd.Label, cd.TextEdit.NewText, d.Error()))
+			continue
+		}
+		var got *hclsyntax.Attribute
+		_ = hclsyntax.VisitAll(f.Body.(*hclsyntax.Body), func(n hclsyntax.Node) hcl.Diagnostics {
+			if a, ok := n.(*hclsyntax.Attribute); ok && a.Name == attr.Name && a.NameRange.Start.Byte == attr.NameRange.Start.Byte {
+				got = a
+			}
+			return nil
+		})
+		if got == nil {
+			continue
+		}
+		v, vd := got.Expr.Value(nil)
+		if vd.HasErrors() {
+			add("literal:accepted-text-is-not-the-value", "literal", fmt.Sprintf("accepting %q (plain text %q) does not evaluate to a literal: %s", cd.Label, cd.TextEdit.NewText, vd.Error()))
+			continue
+		}
+		if cv, err := convert.Convert(v, lv.Value.Type()); err != nil || !cv.RawEquals(lv.Value) {
+			add("literal:accepted-text-is-not-the-value", "literal", fmt.Sprintf("accepting %q (plain text %q) evaluates to %#v, the constraint admits only %#v", cd.Label, cd.TextEdit.NewText, v, lv.Value))
+		}
+	}
+}
+
+// attrSchemaOf finds the schema of a written attribute by name in the one-constraint body (root or blk / nb).
+func attrSchemaOf(cx *explore.Ctx, attr *hclsyntax.Attribute) *schema.AttributeSchema {
+	root := cx.Case.Entry.Mk()
+	if root == nil {
+		return nil
+	}
+	f := cx.W.Ctx(0).Files[cx.Case.File]
+	body, ok := f.Body.(*hclsyntax.Body)
+	if !ok {
+		return nil
+	}
+	if a, ok := body.Attributes[attr.Name]; ok && a == attr {
+		return root.Attributes[attr.Name]
+	}
+	return nil
 }
